@@ -3,6 +3,7 @@ from ..core import rng_for, rand_digits, M64, ndig
 from ..arith import cmd_bb, cmd_sf, cmd_srem, UTYPES, ITYPES, STYPES, scalar_extremes
 from ..oracles import cmd_sh, cmd_pw, cmd_pwb, cmd_sp, cmd_sps
 
+THOROUGH_SEEDS = 30   # the thorough tier repeats its staged workload over this many derived seeds
 RULE = ('every provided operator form is instantiated by macro in the driver (a missing form is a compile error): '
         '{BigUint,BigInt} x {+,-,*,/,%} x scalar types x {big op scalar (4 val/ref forms + assign), scalar op big (5 forms)}, '
         'big op big val/ref^2 + assign (val,ref) for + - * / % & | ^ with operands cloned to exact capacity and with slack '
